@@ -197,8 +197,9 @@ void TcpConnection::shutdown()
   if (state_ == kConnected)
   {
     setState(kDisconnecting);
-    // FIXME: shared_from_this()?
-    loop_->runInLoop(std::bind(&TcpConnection::shutdownInLoop, this));
+    // queued, so that it stays behind every send() accepted before it,
+    // whichever thread made that send()
+    loop_->queueInLoop(std::bind(&TcpConnection::shutdownInLoop, shared_from_this()));
   }
 }
 
